@@ -107,6 +107,20 @@ func (g *Gates) ParkedList() []*Parked {
 	return out
 }
 
+// Rename re-resolves the names of parked goroutines whose key was named after they parked.
+func (g *Gates) Rename() {
+	g.mu.Lock()
+	defer g.mu.Unlock()
+	for _, p := range g.parked {
+		if p.Who == "" {
+			func() {
+				defer func() { recover() }()
+				p.Who = g.knames[p.Key]
+			}()
+		}
+	}
+}
+
 // Release lets one parked goroutine continue.
 func (g *Gates) Release(p *Parked) {
 	g.mu.Lock()
